@@ -587,6 +587,15 @@ func (p *Pkg) Assign(root ast.Node, lhs string, tok token.Token) *ast.AssignStmt
 	}).(*ast.AssignStmt)
 }
 
+// MakeCall: e as a call of the builtin make.
+func MakeCall(p *Pkg, e ast.Expr) *ast.CallExpr {
+	c, ok := e.(*ast.CallExpr)
+	if !ok || p.Src(c.Fun) != "make" {
+		Failf("%s: `%s` is not make(…)", p.Pos(e), p.Src(e))
+	}
+	return c
+}
+
 // Arg returns argument i of a call.
 func (p *Pkg) Arg(c *ast.CallExpr, i int) ast.Expr {
 	if i >= len(c.Args) {
